@@ -323,7 +323,7 @@ func ReaderFunc(nshard int, read interface{}, prags ...Pragma) Slice {
 	s.name = MakeName("reader")
 	s.nshard = nshard
 	fn, ok := slicefunc.Of(read)
-	if !ok || fn.In.NumOut() < 3 || fn.In.Out(0).Kind() != reflect.Int {
+	if !ok || fn.In.NumOut() < 3 || fn.In.Out(0) != typeOfInt {
 		typecheck.Panicf(1, "readerfunc: invalid reader function type %T", read)
 	}
 	if fn.Out.NumOut() != 2 || fn.Out.Out(0).Kind() != reflect.Int || fn.Out.Out(1) != typeOfError {
@@ -461,7 +461,7 @@ func WriterFunc(slice Slice, write interface{}) Slice {
 	fn, ok := slicefunc.Of(write)
 	if !ok ||
 		fn.In.NumOut() != 3+slice.NumOut() ||
-		fn.In.Out(0).Kind() != reflect.Int ||
+		fn.In.Out(0) != typeOfInt ||
 		fn.In.Out(2) != typeOfError {
 		die(fmt.Sprintf("must be %s", expectTyp))
 	}
